@@ -34,6 +34,14 @@ if [ -n "$SEAMS" ]; then
   export VERIF_INST_STATS="$PWD/$W/inst/stats.json"
   EXTRA=(-tags verif -overlay "$PWD/$W/inst/overlay.json")
 fi
+if [ "$ID" = C20 ] && [ -z "${VERIF_ONLY:-}" ] && [ -z "${VERIF_NO_RACE:-}" ]; then
+  # supplementary free-running pass: uninstrumented build under the Go race detector
+  if CGO_ENABLED=1 go build -race -o "$W/vcheck-race" ./cmd/vcheck 2> "$W/build-race.log"; then
+    export VERIF_RACE_BIN="$PWD/$W/vcheck-race"
+  else
+    echo "note: -race build unavailable (supplementary pass skipped): $(tail -1 "$W/build-race.log")" >&2
+  fi
+fi
 if ! go build "${EXTRA[@]}" -o "$W/vcheck" ./cmd/vcheck 2> "$W/build.log"; then
   echo "BUILD-ERROR (not a verdict): see $W/build.log" >&2; tail -20 "$W/build.log" >&2; exit 2
 fi
